@@ -31,3 +31,21 @@ H(prop="C20", name="c20_metavar_spelling_n7", crate="core-h", module="c20_metava
   decides="extract_meta_var(s,'$') == specification table, for every s",
   functions=["ast_grep_core::meta_var::extract_meta_var"],
   shape="STR", bounds="all strings <= 7 bytes over {$,A,Z,a,0,_}; unwind 9")
+
+ANB_FUNCS = ["ast_grep_config::rule::nth_child::parse_an_b", "ast_grep_config::rule::nth_child::FunctionalPosition::is_matched"]
+H(prop="C20", name="c20_anb_parse_spec_n6", crate="config-h", module="anb",
+  decides="parse_an_b(s) == reference reading of An+B (accept/reject and (A,B)), for every s",
+  functions=ANB_FUNCS[:1], shape="STR", bounds="all strings <= 6 bytes over {+,-,n,N,2,9,' '}; unwind 8")
+H(prop="C20", name="c20_anb_parse_spec_n9", crate="config-h", module="anb", tier="thorough",
+  decides="parse_an_b(s) == reference reading of An+B (accept/reject and (A,B)), for every s",
+  functions=ANB_FUNCS[:1], shape="STR", bounds="all strings <= 9 bytes over {+,-,n,N,2,9,' '}; unwind 11")
+H(prop="C20", name="c20_anb_selects_small", crate="config-h", module="anb",
+  decides="is_matched(A,B,i) <=> exists n>=0: i+1 = A*n+B",
+  functions=ANB_FUNCS[1:], shape="INT", bounds="A in [-4,4], B in [-6,6], index < 12, n <= 18")
+
+H(prop="C11", name="c11_anb_parse_total_n12", crate="config-h", module="anb",
+  decides="parse_an_b never panics (overflow, index) on any string",
+  functions=ANB_FUNCS[:1], shape="STR", bounds="all strings <= 12 bytes over {+,-,n,9,1,' '} (12 digits overflow i32); unwind 14")
+H(prop="C11", name="c11_nth_is_matched_total", crate="config-h", module="anb",
+  decides="is_matched never panics (sub/div/rem overflow) for any (step, offset) in i32^2",
+  functions=ANB_FUNCS[1:], shape="INT", bounds="step, offset: full i32; index < 2^31-2")
